@@ -35,10 +35,11 @@ const (
 	kInfix2Ignore
 	kHostInfixIgnore
 	kHostFork405
+	kNoQueryMark
 	nKinds
 )
 
-var kindNames = [...]string{"direct(2 params)", "ignored-slash", "redirect", "404", "405", "OPTIONS", "Lookup+Close", "Lookup+Clone", "handler-CloneWith", "handler-Clone-stash", "hostname-direct", "infix-catch-all", "iterators-left-early", "handler-Lookup-inside", "ignored-slash-Clone-stash", "static-hostname-ignored-slash+Lookup-inside", "two-infix-catch-alls-ignored-slash", "hostname-infix-catch-all-ignored-slash", "405-after-backtracking-in-the-hostname-tree"}
+var kindNames = [...]string{"direct(2 params)", "ignored-slash", "redirect", "404", "405", "OPTIONS", "Lookup+Close", "Lookup+Clone", "handler-CloneWith", "handler-Clone-stash", "hostname-direct", "infix-catch-all", "iterators-left-early", "handler-Lookup-inside", "ignored-slash-Clone-stash", "static-hostname-ignored-slash+Lookup-inside", "two-infix-catch-alls-ignored-slash", "hostname-infix-catch-all-ignored-slash", "405-after-backtracking-in-the-hostname-tree", "no-query-string+handler-adds-a-query-value+Clone-stash"}
 
 // world is one router plus the bookkeeping of one execution.
 type world struct {
@@ -53,6 +54,7 @@ type reqInfo struct {
 	tok      string
 	kind     int
 	observed bool
+	noQuery  bool // the request carries no query string
 }
 
 type stashed struct {
@@ -66,6 +68,7 @@ type stashed struct {
 	route   string
 	scope   fox.HandlerScope
 	hdr     string
+	query   string
 }
 
 func (w *world) bad(format string, a ...any) {
@@ -124,8 +127,18 @@ func (w *world) observe(c fox.Context, wantPattern string, wantScope fox.Handler
 	if c.Header("X-Tok") != tok {
 		w.bad("Header(X-Tok) = %q", c.Header("X-Tok"))
 	}
-	if c.QueryParam("q") != tok || c.QueryParams().Get("q") != tok {
-		w.bad("QueryParam(q) = %q / QueryParams = %v", c.QueryParam("q"), c.QueryParams())
+	wantQ := tok
+	if w.cur.noQuery {
+		wantQ = ""
+		// the only value such a request may ever show is the one its own handler added
+		for k, v := range c.QueryParams() {
+			if k != "mark" || len(v) != 1 || v[0] != tok {
+				w.bad("QueryParams() of a request without a query string holds %s=%v", k, v)
+			}
+		}
+	}
+	if c.QueryParam("q") != wantQ || c.QueryParams().Get("q") != wantQ {
+		w.bad("QueryParam(q) = %q / QueryParams = %v, want %q", c.QueryParam("q"), c.QueryParams(), wantQ)
 	}
 	if !strings.Contains(c.Path(), tok) {
 		w.bad("Path() = %q", c.Path())
@@ -156,6 +169,7 @@ func (w *world) stashClone(c fox.Context, cl fox.Context) {
 	wr := c.Writer()
 	s.status, s.size, s.written = wr.Status(), wr.Size(), wr.Written()
 	s.hdr = fmt.Sprint(wr.Header())
+	s.query = cl.QueryParams().Encode()
 	w.stash = append(w.stash, s)
 }
 
@@ -176,8 +190,8 @@ func (w *world) recheck(when string) {
 		if r := c.Request(); r == nil || r.Header.Get("X-Tok") != s.tok {
 			msgs = append(msgs, "Request() is not the cloned request")
 		}
-		if c.QueryParam("q") != s.tok {
-			msgs = append(msgs, fmt.Sprintf("QueryParam(q)=%q", c.QueryParam("q")))
+		if q := c.QueryParams().Encode(); q != s.query {
+			msgs = append(msgs, fmt.Sprintf("QueryParams()=%q, at clone time %q", q, s.query))
 		}
 		wr := c.Writer()
 		if wr.Status() != s.status || wr.Size() != s.size || wr.Written() != s.written {
@@ -242,6 +256,25 @@ func newWorld(withHost bool) *world {
 		w.observe(c, "/cl/{a}", fox.RouteHandler, []string{"a"}, true)
 		c.SetHeader("X-Early", w.cur.tok)
 		w.stashClone(c, c.Clone())
+		w.respond(c)
+	}))
+	// a request without a query string whose handler adds a value to the (per-request) query values and keeps a Clone
+	must(f.Handle("GET", "/nq/{a}", func(c fox.Context) {
+		w.observe(c, "/nq/{a}", fox.RouteHandler, []string{"a"}, true)
+		c.QueryParams().Set("mark", w.cur.tok)
+		if g := c.QueryParam("mark"); g != w.cur.tok {
+			w.bad("QueryParam(mark) = %q right after QueryParams().Set(mark, %q)", g, w.cur.tok)
+		}
+		// a context made by CloneWith for another request without a query string shows no query value at all
+		r2 := c.Request().Clone(c.Request().Context())
+		cc := c.CloneWith(fx.WrapRW(fx.NewRW()), r2)
+		if q := cc.QueryParams(); len(q) != 0 {
+			w.bad("CloneWith(w, r2) for a request without a query string reads QueryParams() = %v", q)
+		}
+		cc.Close()
+		w.stashClone(c, c.Clone())
+		// the handler takes its value back before returning (executions of the explorer share the process)
+		c.QueryParams().Del("mark")
 		w.respond(c)
 	}))
 	// a slash-adjusted match whose handler keeps a Clone
@@ -324,7 +357,9 @@ func newWorld(withHost bool) *world {
 
 func (w *world) req(method, host, path string) *http.Request {
 	r := fx.Req(method, host, path)
-	r.URL.RawQuery = "q=" + w.cur.tok
+	if !w.cur.noQuery {
+		r.URL.RawQuery = "q=" + w.cur.tok
+	}
 	r.Header.Set("X-Tok", w.cur.tok)
 	return r
 }
@@ -333,7 +368,7 @@ func (w *world) req(method, host, path string) *http.Request {
 func (w *world) issue(kind int) {
 	w.serial++
 	tok := fmt.Sprintf("t%d%c", w.serial, 'A'+kind)
-	w.cur = &reqInfo{tok: tok, kind: kind}
+	w.cur = &reqInfo{tok: tok, kind: kind, noQuery: kind == kNoQueryMark}
 	rw := fx.NewRW()
 	wantObserved := true
 	switch kind {
@@ -360,6 +395,8 @@ func (w *world) issue(kind int) {
 		w.f.ServeHTTP(rw, w.req("GET", tok+"a.host", "/x/"+tok+"b"))
 	case kInfix:
 		w.f.ServeHTTP(rw, w.req("GET", "", "/in/"+tok+"a/end/"+tok+"b"))
+	case kNoQueryMark:
+		w.f.ServeHTTP(rw, w.req("GET", "", "/nq/"+tok+"a"))
 	case kHandlerLookup:
 		w.f.ServeHTTP(rw, w.req("GET", "", "/hl/"+tok+"a"))
 	case kIgnoreCloneStash:
@@ -677,7 +714,7 @@ func init() {
 	mc.Register(&mc.Check{
 		ID:    "C12",
 		Level: "model_checking",
-		Rule: "every sequence up to a length of requests from a 19-kind alphabet (direct, ignored slash, redirect, 404, 405, OPTIONS, manual Lookup(+Clone), CloneWith, Clone, hostname, infix catch-all, every iterator consumed fully and left at its first element, a handler doing a Lookup for another request, a slash-adjusted match whose handler keeps a Clone, a static-hostname slash-adjusted match whose handler looks up another slash-adjusted request), with an optional tree replacement before each request, x EVERY answer of the context pool at every Pool.Get (any of the pooled contexts or a fresh one: data choice points of the controlled scheduler); every request carries a unique token in every observable field and every Context getter is checked inside every handler; stashed clones are re-read after every later request; " +
+		Rule: "every sequence up to a length of requests from a 20-kind alphabet (direct, ignored slash, redirect, 404, 405, OPTIONS, manual Lookup(+Clone), CloneWith, Clone, hostname, infix catch-all, every iterator consumed fully and left at its first element, a handler doing a Lookup for another request, a slash-adjusted match whose handler keeps a Clone, a static-hostname slash-adjusted match whose handler looks up another slash-adjusted request), with an optional tree replacement before each request, x EVERY answer of the context pool at every Pool.Get (any of the pooled contexts or a fresh one: data choice points of the controlled scheduler); every request carries a unique token in every observable field and every Context getter is checked inside every handler; stashed clones are re-read after every later request; " +
 			"plus two-thread schedules; distinct_nontrivial = distinct (sequence, outcome) classes",
 		Assumptions: []string{
 			"sync.Pool may return any previously Put object or a fresh one: the shim makes that choice explicit and the explorer enumerates it",
@@ -694,7 +731,7 @@ func init() {
 				} else {
 					seqs = sequences(maxLen, kinds, true)
 				}
-				r.Bounds["sequences"] = fmt.Sprintf("%d sequences (19 kinds; quick: all of length<=2 with tree replacement + length 3 over 11 kinds; thorough: all of length<=3 with tree replacement), unbounded exploration of pool answers", len(seqs))
+				r.Bounds["sequences"] = fmt.Sprintf("%d sequences (20 kinds; quick: all of length<=2 with tree replacement + length 3 over 11 kinds; thorough: all of length<=3 with tree replacement), unbounded exploration of pool answers", len(seqs))
 				for i, s := range seqs {
 					if !c.Mine(i) {
 						continue
